@@ -59,14 +59,14 @@ class Scenario:
                 a, b = b, a
             res = None
             if isinstance(a, Sym) and isinstance(b, TEnum):
-                last = a.path[-1] if a.path else ''
-                if last == 'semantics' and k is not None:
+                # the enum class says which scenario dimension is tested
+                if b.cls.name == 'RuntimeSemantics' and k is not None:
                     res = (k['semantics'] == b.member)
-                elif last == 'direction' and b.cls.name == 'EventDirection' and self.direction is not None:
+                elif b.cls.name == 'EventDirection' and self.direction is not None:
                     res = (self.direction == b.member)
-                elif last == 'origin' and self.origin is not None:
+                elif b.cls.name == 'FacilitiesOrigin' and self.origin is not None:
                     res = (self.origin == b.member)
-                elif last == 'direction' and b.cls.name == 'PortDirection' and k is not None:
+                elif b.cls.name == 'PortDirection' and k is not None:
                     res = (k['side'].upper() == b.member)
             elif isinstance(a, Sym) and a.path[-3:] == ('signature', 'type_name', 'value') and \
                     isinstance(b, str) and "'void'" in b and self.reply_void is not None:
@@ -116,6 +116,44 @@ class Scenario:
                 return None
         return True if side is not None else None
 
+    # -- selection of alternatives in non-string values ----------------------------------------------------------------------
+    def select(self, v: Any, depth: int = 0) -> Any:
+        """Resolve TAlt / AltL alternatives decided by the scenario (recursively through lists and objects)."""
+        if depth > 30:
+            return v
+        if isinstance(v, TAlt):
+            r = self.decide(v.cond)
+            if r is True:
+                return self.select(v.a, depth + 1)
+            if r is False:
+                return self.select(v.b, depth + 1)
+            return TAlt(v.cond, self.select(v.a, depth + 1), self.select(v.b, depth + 1))
+        if isinstance(v, TStr):
+            return self.simplify(v)
+        if isinstance(v, (TList, TBlock)):
+            items = self.select_items(v.items, depth + 1)
+            return TList(items) if isinstance(v, TList) else TBlock(items, v.comment)
+        if isinstance(v, TObj):
+            return TObj(v.cls, {k: (self.select(x, depth + 1) if k != 'scope' else x) for k, x in v.fields.items()})
+        return v
+
+    def select_items(self, items: list, depth: int = 0) -> list:
+        out = []
+        for it in items:
+            if isinstance(it, AltL):
+                r = self.decide(it.cond)
+                if r is True:
+                    out.extend(self.select_items(it.a, depth + 1))
+                elif r is False:
+                    out.extend(self.select_items(it.b, depth + 1))
+                else:
+                    out.append(AltL(it.cond, self.select_items(it.a, depth + 1), self.select_items(it.b, depth + 1)))
+            elif isinstance(it, RepL):
+                out.append(RepL(it.src, self.select_items(it.items, depth + 1)))
+            else:
+                out.append(self.select(it, depth + 1))
+        return out
+
     # -- simplification ---------------------------------------------------------------------------------------------------
     def simplify(self, s: TStr) -> TStr:
         out = TStr()
@@ -153,6 +191,49 @@ class EventLoop:
     src: Src
     body: TStr
     where: str
+
+
+def collect_loops(ev: Evaluator, val: Any, pred, frames: Optional[List[Frame]] = None, where: str = '',
+                  out: Optional[List[EventLoop]] = None, depth: int = 0) -> List[EventLoop]:
+    """All repetitions whose source satisfies `pred`, with their enclosing frames (generalises `walk`)."""
+    frames = frames or []
+    out = out if out is not None else []
+    if depth > 40 or val is None or val is TNone:
+        return out
+    if isinstance(val, TStr):
+        for p in val.parts:
+            if isinstance(p, AltS):
+                collect_loops(ev, p.a, pred, frames + [Frame('cond', cond=p.cond)], where, out, depth + 1)
+                collect_loops(ev, p.b, pred, frames + [Frame('cond', cond=c_not(p.cond))], where, out, depth + 1)
+            elif isinstance(p, RepS):
+                if pred(p.src):
+                    out.append(EventLoop(list(frames), p.src, p.elem, where))
+                collect_loops(ev, p.elem, pred, frames + [Frame('rep', src=p.src)], where, out, depth + 1)
+    elif isinstance(val, (TList, TBlock)):
+        for it in val.items:
+            collect_loops(ev, it, pred, frames, where, out, depth + 1)
+    elif isinstance(val, RepL):
+        if pred(val.src):
+            body = TStr()
+            for x in val.items:
+                body = body + ev.line_to_str(x, 2)
+            out.append(EventLoop(list(frames), val.src, body, where))
+        for x in val.items:
+            collect_loops(ev, x, pred, frames + [Frame('rep', src=val.src)], where, out, depth + 1)
+    elif isinstance(val, AltL):
+        for x in val.a:
+            collect_loops(ev, x, pred, frames + [Frame('cond', cond=val.cond)], where, out, depth + 1)
+        for x in val.b:
+            collect_loops(ev, x, pred, frames + [Frame('cond', cond=c_not(val.cond))], where, out, depth + 1)
+    elif isinstance(val, TAlt):
+        collect_loops(ev, val.a, pred, frames + [Frame('cond', cond=val.cond)], where, out, depth + 1)
+        collect_loops(ev, val.b, pred, frames + [Frame('cond', cond=c_not(val.cond))], where, out, depth + 1)
+    elif isinstance(val, TObj):
+        for k, v in val.fields.items():
+            if k.startswith('__') or k in ('scope',):
+                continue
+            collect_loops(ev, v, pred, frames, f'{where}.{k}' if where else k, out, depth + 1)
+    return out
 
 
 def is_event_src(src: Src) -> bool:
